@@ -15,15 +15,46 @@ import (
 // slip in one of them (the wrong variant called in one branch, a dropped check)
 // shows up as the first line at which the renamed listings differ.
 
-// fnListing renders fn as a canonical line-per-instruction listing.
+// fnListing renders fn as a canonical line-per-instruction listing. Blocks are numbered in the
+// order of a depth-first walk that always takes the edge on which the (un-negated) branch atom is
+// true first, so that inverting a condition and swapping its arms, or moving blocks around, gives
+// the same listing.
 func fnListing(fn *ssa.Function) []string {
-	var out []string
-	for _, b := range fn.Blocks {
-		var succs []string
-		for _, s := range b.Succs {
-			succs = append(succs, fmt.Sprintf("b%d", s.Index))
+	if len(fn.Blocks) == 0 {
+		return nil
+	}
+	// canonical successor order per block
+	succOf := func(b *ssa.BasicBlock) []*ssa.BasicBlock {
+		if len(b.Succs) == 2 {
+			if iff, ok := b.Instrs[len(b.Instrs)-1].(*ssa.If); ok {
+				if condAtom(iff.Cond).Neg {
+					return []*ssa.BasicBlock{b.Succs[1], b.Succs[0]}
+				}
+			}
 		}
-		out = append(out, fmt.Sprintf("b%d -> %s", b.Index, strings.Join(succs, ",")))
+		return b.Succs
+	}
+	num := map[*ssa.BasicBlock]int{}
+	var order []*ssa.BasicBlock
+	var walk func(b *ssa.BasicBlock)
+	walk = func(b *ssa.BasicBlock) {
+		if _, ok := num[b]; ok {
+			return
+		}
+		num[b] = len(order)
+		order = append(order, b)
+		for _, s := range succOf(b) {
+			walk(s)
+		}
+	}
+	walk(fn.Blocks[0])
+	var out []string
+	for _, b := range order {
+		var succs []string
+		for _, s := range succOf(b) {
+			succs = append(succs, fmt.Sprintf("b%d", num[s]))
+		}
+		out = append(out, fmt.Sprintf("b%d -> %s", num[b], strings.Join(succs, ",")))
 		for _, ins := range b.Instrs {
 			switch x := ins.(type) {
 			case *ssa.Call:
@@ -36,9 +67,6 @@ func fnListing(fn *ssa.Function) []string {
 			case *ssa.Go:
 				out = append(out, "  go "+calleeName(&x.Call))
 			case *ssa.Store:
-				if a, ok := x.Addr.(*ssa.Alloc); ok && (a.Comment == "varargs" || strings.HasPrefix(a.Comment, "complit") && false) {
-					continue
-				}
 				if ia, ok := x.Addr.(*ssa.IndexAddr); ok {
 					if a, ok := ia.X.(*ssa.Alloc); ok && a.Comment == "varargs" {
 						continue
@@ -48,12 +76,7 @@ func fnListing(fn *ssa.Function) []string {
 			case *ssa.MapUpdate:
 				out = append(out, "  mapset "+desc(x.Map, maxDepth)+"["+desc(x.Key, maxDepth)+"] = "+desc(x.Value, maxDepth))
 			case *ssa.If:
-				at := condAtom(x.Cond)
-				neg := ""
-				if at.Neg {
-					neg = "not "
-				}
-				out = append(out, "  if "+neg+at.Str)
+				out = append(out, "  if "+condAtom(x.Cond).Str)
 			case *ssa.Return:
 				var rs []string
 				for i := range x.Results {
